@@ -152,7 +152,7 @@ def check(rep):
     from gbigsmiles.bond import BondDescriptor
     from gbigsmiles.token import SmilesToken
 
-    coq = fw.coq_check("C01", ["SrcBond", "SrcDescr"])
+    coq = fw.coq_check("C01", ["SrcBond", "SrcDescr", "SrcDescrPrint", "SrcPrint"])
     quick = rep.tier == "quick"
     rnd = random.Random(rep.seed + 1)
     evaluations = accepted = 0
@@ -193,6 +193,10 @@ def check(rep):
     mols += [("molast", mg.molecule()[0], rnd.randrange(1 << 30)) for _ in range(80 if quick else 6000)]
     for a, t, s in mols:
         run("molecule", gbigsmiles.Molecule, dump_mol, t, True, seed=s % 1000)
+    # stochastic objects WITHOUT repeat units (only end groups, or nothing between the terminals): accepted by the parser, so in the domain
+    for t in ["{[$]; [$]O [$]}|gauss(10,1)|", "{[$] ; [$]O, [$]N [$]}|gauss(10,1)|", "{[<] [>]}|gauss(10,1)|", "{[]; [$]O, [$]N []}|gauss(10,1)|",
+              "C{[$]; [$]O [$]}|uniform(5, 20)|N", "{[>]; [<]F, [>]Cl [<]}|poisson(30)|CC"]:
+        run("molecule", gbigsmiles.Molecule, dump_mol, t, False, source="no_repeat_units")
     # systems
     import sysrun
     for _ in range(60 if quick else 3000):
